@@ -102,6 +102,7 @@ type FBDNSDB struct {
 	handlerConfig HandlerConfig
 	cacheConfig   CacheConfig
 	reloadMu      sync.RWMutex
+	cacheGen      uint64 // bumped (under reloadMu) every time a reload purges the cache
 	done          chan struct{}
 	lru           *lru.Cache
 	logger        Logger
@@ -370,6 +371,7 @@ func (h *FBDNSDB) Reload(s ReloadSignal) (err error) {
 	if h.cacheConfig.Enabled && h.lru != nil {
 		h.lru.Purge()
 	}
+	h.cacheGen++
 
 	if err := h.cleanupSignalFile(s); err != nil {
 		return err
@@ -386,6 +388,26 @@ func (h *FBDNSDB) AcquireReader() (db.Reader, error) {
 	h.reloadMu.RLock()
 	defer h.reloadMu.RUnlock()
 	return db.NewReader(h.dnsdb)
+}
+
+// acquireReaderAndCacheGen is AcquireReader, plus the cache generation observed
+// in the same critical section as the database the reader pins.
+func (h *FBDNSDB) acquireReaderAndCacheGen() (db.Reader, uint64, error) {
+	h.reloadMu.RLock()
+	defer h.reloadMu.RUnlock()
+	r, err := db.NewReader(h.dnsdb)
+	return r, h.cacheGen, err
+}
+
+// cacheAdd stores a response computed by a reader acquired at cache generation
+// gen, unless the database has been reloaded (and the cache purged) since: an
+// answer computed from the previous database must not outlive the purge.
+func (h *FBDNSDB) cacheAdd(gen uint64, key string, e cacheEntry) {
+	h.reloadMu.RLock()
+	defer h.reloadMu.RUnlock()
+	if gen == h.cacheGen {
+		h.lru.Add(key, e)
+	}
 }
 
 // Close closes the database. It also takes care of closing the channel used
